@@ -111,7 +111,9 @@ def run(res, tier, seed):
     maxk = 4 if tier == 'quick' else 5
     nperm = 0
     for mix, keys in MIX_KEYS.items():
-        for n in range(0, maxk + 1):
+        # half-way failing sorts need >= 3 comparable keys plus 2 unsortable ones: always go to 5 there
+        top = 5 if mix.startswith('unsortable') else maxk
+        for n in range(0, top + 1):
             for perm in itertools.permutations(keys[:n]):
                 for kindh in ((3,), (5, 1), (4,)):
                     if kindh == (4,) and n > 3:
